@@ -24,6 +24,10 @@ def maxEnq : List (Op α) → Nat
 /-- no `DeleteRange n` with `k ≤ n` occurs in the history -/
 def NoDelCovering (ops : List (Op α)) (k : Nat) : Prop := ∀ n, Op.del n ∈ ops → n < k
 
+theorem reopen_keeps_persistent' (q : Q α) :
+    (reopen q).items = q.items ∧ (reopen q).highest = q.highest := by
+  simp only [reopen, loadHead]; simp
+
 /-! ### persisted high key -/
 
 theorem stepOp_highest (q : Q α) (op : Op α) (hq : Inv q) :
@@ -40,6 +44,9 @@ theorem stepOp_highest (q : Q α) (op : Op α) (hq : Inv q) :
     cases q.nextEv <;> simp
   | query => simp [stepOp, maxEnq]
   | reopen =>
+    simp only [stepOp, reopen, loadHead, maxEnq]
+    simp
+  | kill =>
     simp only [stepOp, reopen, loadHead, maxEnq]
     simp
 
@@ -67,6 +74,31 @@ theorem enqueue_at_or_below_highest_ignored (ops : List (Op α)) (k : Nat) (d : 
   have := highest_is_max_ever_enqueued ops
   unfold enqueue
   simp [this, h]
+
+theorem runQ_append (q : Q α) (a b : List (Op α)) : runQ q (a ++ b) = runQ (runQ q a) b := by
+  induction a generalizing q with
+  | nil => rfl
+  | cons op a ih => simp [runQ, ih]
+
+/-- **What a kill leaves durable.** After ANY history, killing the process (no Close) and
+opening the queue again finds exactly the stored items and the high key that the
+acknowledged operations produced: `max_key` is written in the same Bolt transaction as
+every accepted enqueue, not at Close. -/
+theorem durable_across_kill (ops : List (Op α)) :
+    (runQ empty (ops ++ [.kill])).highest = maxEnq ops ∧
+    (runQ empty (ops ++ [.kill])).items = (runQ empty ops).items := by
+  rw [runQ_append]
+  have := highest_is_max_ever_enqueued ops
+  simp only [runQ, stepOp]
+  exact ⟨by rw [(reopen_keeps_persistent' _).2]; exact this, (reopen_keeps_persistent' _).1⟩
+
+/-- … so an enqueue at or below the highest index ever ACKNOWLEDGED is still ignored right
+after a kill — also when that highest item has meanwhile been deleted and the index lives
+only in `max_key`. -/
+theorem enqueue_after_kill_ignored (ops : List (Op α)) (k : Nat) (d : α) (h : k ≤ maxEnq ops) :
+    enqueue (runQ empty (ops ++ [.kill])) k d = runQ empty (ops ++ [.kill]) := by
+  unfold enqueue
+  simp [(durable_across_kill ops).1, h]
 
 /-- … and an enqueue above it is stored and becomes the new high key. -/
 theorem enqueue_above_highest_stored (ops : List (Op α)) (k : Nat) (d : α)
@@ -115,6 +147,8 @@ theorem stepOp_items (q : Q α) (op : Op α) (hq : Inv q) (p : Item α) :
   | query => simp [stepOp]
   | reopen =>
     simp only [stepOp, reopen, loadHead] <;> simp
+  | kill =>
+    simp only [stepOp, reopen, loadHead] <;> simp
 
 theorem noDel_cons (op : Op α) (rest : List (Op α)) (k : Nat) :
     NoDelCovering (op :: rest) k ↔ (∀ n, op = Op.del n → n < k) ∧ NoDelCovering rest k := by
@@ -157,6 +191,7 @@ theorem mem_items_runQ (q : Q α) (ops : List (Op α)) (hq : Inv q) (k : Nat) (d
         | consume => left; exact ⟨hm, ⟨(by intro n hn; cases hn), hnd⟩⟩
         | query => left; exact ⟨hm, ⟨(by intro n hn; cases hn), hnd⟩⟩
         | reopen => left; exact ⟨hm, ⟨(by intro n hn; cases hn), hnd⟩⟩
+        | kill => left; exact ⟨hm, ⟨(by intro n hn; cases hn), hnd⟩⟩
       · right
         refine ⟨op :: pre, post, by simp [hsplit], ?_, hnd⟩
         rw [maxEnq_cons]; omega
@@ -169,6 +204,7 @@ theorem mem_items_runQ (q : Q α) (ops : List (Op α)) (hq : Inv q) (k : Nat) (d
         | consume => exact hm
         | query => exact hm
         | reopen => exact hm
+        | kill => exact hm
       · rcases List.cons_eq_append_iff.1 hsplit with ⟨hpre, hrest⟩ | ⟨pre', hpre, hrest⟩
         · -- the accepted enqueue is `op` itself
           subst hpre
@@ -219,7 +255,7 @@ theorem consume_emits_head (q : Q α) (hq : Inv q) (e : Item α) (h : (consume q
     simp only [hne]
     exact ⟨seek_some_mem hs, seek_some_ge hs, trivial⟩
 
-theorem stepOp_nextFrom_mono (q : Q α) (op : Op α) (hq : Inv q) (hop : op ≠ Op.reopen) :
+theorem stepOp_nextFrom_mono (q : Q α) (op : Op α) (hq : Inv q) (hop : op ≠ Op.reopen) (hk : op ≠ Op.kill) :
     q.nextFrom ≤ (stepOp q op).1.nextFrom := by
   cases op with
   | enq k d =>
@@ -238,17 +274,20 @@ theorem stepOp_nextFrom_mono (q : Q α) (op : Op α) (hq : Inv q) (hop : op ≠ 
     | some e => have := consume_emits_head q hq e h; omega
   | query => simp [stepOp]
   | reopen => exact absurd rfl hop
+  | kill => exact absurd rfl hk
 
-theorem emitted_increasing (q : Q α) (hq : Inv q) (ops : List (Op α)) (hno : Op.reopen ∉ ops) :
+theorem emitted_increasing (q : Q α) (hq : Inv q) (ops : List (Op α)) (hno : Op.reopen ∉ ops) (hnk : Op.kill ∉ ops) :
     ((emitted q ops).map (·.1)).Pairwise (· < ·) ∧ ∀ e ∈ emitted q ops, q.nextFrom ≤ e.1 := by
   induction ops generalizing q with
   | nil => simp [emitted]
   | cons op rest ih =>
     have hop : op ≠ Op.reopen := fun h => hno (by simp [h])
+    have hopk : op ≠ Op.kill := fun h => hnk (by simp [h])
     have hrest : Op.reopen ∉ rest := fun h => hno (by simp [h])
+    have hrestk : Op.kill ∉ rest := fun h => hnk (by simp [h])
     have hq1 := inv_stepOp q op hq
-    obtain ⟨ihp, ihb⟩ := ih _ hq1 hrest
-    have hmono := stepOp_nextFrom_mono q op hq hop
+    obtain ⟨ihp, ihb⟩ := ih _ hq1 hrest hrestk
+    have hmono := stepOp_nextFrom_mono q op hq hop hopk
     unfold emitted
     cases hem : (stepOp q op).2 with
     | none =>
@@ -278,10 +317,10 @@ theorem emitted_increasing (q : Q α) (hq : Inv q) (ops : List (Op α)) (hno : O
 /-- **Within one open the queue emits in strictly increasing index order** (so every
 index is emitted at most once per open — a deleted index can never be re-added, see
 `enqueue_at_or_below_highest_ignored`). `pre` is any earlier history (with any number of
-reopens); `seg` is any operation sequence without a reopen, i.e. one open. -/
-theorem emission_strictly_increasing_per_open (pre seg : List (Op α)) (h : Op.reopen ∉ seg) :
+reopens); `seg` is any operation sequence without a reopen or kill, i.e. one open. -/
+theorem emission_strictly_increasing_per_open (pre seg : List (Op α)) (h : Op.reopen ∉ seg) (hk : Op.kill ∉ seg) :
     ((emitted (runQ empty pre) seg).map (·.1)).Pairwise (· < ·) :=
-  (emitted_increasing _ (reachable_inv pre) seg h).1
+  (emitted_increasing _ (reachable_inv pre) seg h hk).1
 
 /-- every emitted event is an item stored at that moment (index and data) -/
 theorem emits_only_stored (ops : List (Op α)) (e : Item α) (h : (consume (runQ empty ops)).2 = some e) :
@@ -363,5 +402,19 @@ theorem stranded_below_delete_bound_witness :
     let q := runQ empty [.enq 1 "x01", .consume, .del 100, .enq 5 "x05"]
     q.items = [(5, "x05")] ∧ q.nextFrom = 101 ∧ (consume q).2 = none ∧
     (consume (reopen q)).2 = some (5, "x05") := by decide
+
+/-- THE FULL STATEMENT of progress (no cursor hypothesis): every stored item is received
+after at most `Len` consumes in the current open. -/
+def progress_full : Prop :=
+  ∀ (ops : List (Op String)) (p : Item String), p ∈ (runQ empty ops).items →
+    p ∈ emitted (runQ empty ops) (List.replicate (runQ empty ops).items.length Op.consume)
+
+/-- false: the stranded item of `stranded_below_delete_bound_witness` (known finding; `progress`
+is the partial statement, under "the item is at or above the cursor") -/
+theorem progress_witness : ¬ progress_full := by
+  intro h
+  have := h [.enq 1 "x01", .consume, .del 100, .enq 5 "x05"] (5, "x05") (by decide)
+  revert this
+  decide
 
 end C26
